@@ -1,0 +1,11 @@
+//go:build verif
+
+package common
+
+// VerifItems exposes the elements of a Set in insertion order (build tag verif only).
+func (s *Set[T]) VerifItems() []T {
+	if s == nil {
+		return nil
+	}
+	return s.slice
+}
